@@ -23,6 +23,8 @@ fn alpha_loops() -> FAlphabet {
         andor: vec![],
         andor_conds: vec![],
         vars: vec![0],
+        rhs_conds: vec![],
+        rhs_lits: vec![],
         if_return: false,
         loop_conds,
         for_counts: vec![0, 2],
